@@ -109,6 +109,10 @@ def case(args):
         ph, go = rnd.choice([17, 20, 24, 33, 100]), "go depth %d" % min(9, maxd)
         fen = rnd.choice(["rnbqkbnr/pppppppp/8/8/8/8/PPPPPPPP/RNBQKBNR w KQkq - 0 1", "r1bq1rk1/pp2bppp/2n1pn2/2pp4/3P1B2/2PBPN2/PP1N1PPP/R2QK2R w KQ - 0 8",
                           "r1bqkbnr/pppp1ppp/2n5/4p3/4P3/5N2/PPPP1PPP/RNBQKB1R w KQkq - 2 3"])
+    elif directed == "same-clock":  # the probe's placement searched before with other half-move clocks (>= 40: the evaluation is
+        # scaled by the clock): whatever is cached per placement instead of per (placement, clock) and survives Clear Hash shows here
+        go = "go depth %d" % rnd.randint(4, min(9, maxd))
+        ff = fen.split(); ff[4] = "0"; fen = " ".join(ff)
     res = dict(viol=[], sample="%s | %s | Hash %d | prior=%d" % (fen, go, ph, nprior), nprior=nprior)
     a = uci.Engine("rel", NET)
     a.send("uci"); a.send("setoption name Hash value %d" % ph); a.isready()
@@ -142,6 +146,13 @@ def case(args):
         for cmd in ("position fen " + fen, "go depth %d" % (min(9, maxd) + 3)):
             b.send(cmd); script.append(cmd)
         b.wait_for(lambda l: l.startswith("bestmove"), 0, 300)
+    elif directed == "same-clock":
+        for hm in rnd.sample(range(40, 100), 3):
+            ff = fen.split(); ff[4] = str(hm)
+            cmds = ("position fen " + " ".join(ff), "go depth %d" % rnd.randint(4, 8))
+            script.extend(cmds)
+            b.send(cmds[0])
+            b.go(cmds[1], timeout=300)
     ok = prior_session(b, rnd, fens, nprior if not directed else rnd.randint(0, 3), script, ph)
     if not ok:
         b.close("kill")
@@ -180,8 +191,8 @@ def run(c):
     for i in range(n):
         nprior = forced[i % len(forced)] if i % 3 == 0 else rnd.randint(1, 40)
         jobs.append((c.seed * 100000 + i, fens, nprior, 9 if quick else 11))
-    for i in range(max(9, n // 4)):
-        jobs.append((c.seed * 100000 + 50000 + i, fens, 2, 9 if quick else 11, ("tb8", "contempt1", "same-big")[i % 3]))
+    for i in range(max(12, n // 3)):
+        jobs.append((c.seed * 100000 + 50000 + i, fens, 2, 9 if quick else 11, ("tb8", "contempt1", "same-big", "same-clock")[i % 4]))
     npr = []
     seen = set()
     with concurrent.futures.ThreadPoolExecutor(max_workers=core.NCPU) as ex:
@@ -200,6 +211,6 @@ def run(c):
     c.rule = ("one case = (probe position, probe command depth 6..9 or nodes, probe hash size 1/8/16 MB set at the start of both processes, seeded prior session of 1..40 searches of all limit kinds on unrelated positions incl. "
               "<=4-men 'go infinite' until tbhits, ucinewgame, option changes reverted before Clear Hash); compared transcripts: every 'info ... score ... nodes ... pv' line "
               "(time/nps removed), final node count and the bestmove line; fresh engine run twice (determinism), probe repeated after a second Clear Hash; "
-              "prior lengths 14..18 and 30..34 forced in a third of the cases; directed cases: tablebase left resident at Hash 8 before Clear Hash with a depth-10 probe, non-zero contempt search at Hash 1 with a depth-9 probe, Hash 17/20/24/33/100 (cleared in chunks by a thread pool) with the probe position itself searched deeper before Clear Hash; distinct_nontrivial = distinct (position, probe, prior length)")
+              "prior lengths 14..18 and 30..34 forced in a third of the cases; directed cases: tablebase left resident at Hash 8 before Clear Hash with a depth-10 probe, non-zero contempt search at Hash 1 with a depth-9 probe, Hash 17/20/24/33/100 (cleared in chunks by a thread pool) with the probe position itself searched deeper before Clear Hash, the probe placement searched with three half-move clocks 40..99 before Clear Hash and a clock-0 probe; distinct_nontrivial = distinct (position, probe, prior length)")
     c.extra.update(prior_lengths_min=min(npr), prior_lengths_max=max(npr), cases_with_prior_15_to_17=len([x for x in npr if 15 <= x <= 17]), exhaustive=False)
     c.assumptions += ["Threads=1 in the probe; synthetic network material_1"]
